@@ -88,7 +88,7 @@ static void run_case(Case &c)
     for(int i = 0; i < ncalls && g_w.violations_in_case < 10; i++)
     {
         OPN2_MIDIPlayer *d = r.chance(0.03) ? NULL : dev;
-        int fn = (int)r.below(78);
+        int fn = (int)r.below(80);
         std::string argc = "-", retc = "-";
         #define RET(cond_ok, name, rcval) do { retc = vfmt("%d", (int)(rcval)); if(!(cond_ok)) c.violation(std::string("oracle:documented-return:") + (name), vfmt("%s returned %d (args %s)", (name), (int)(rcval), argc.c_str())); } while(0)
         switch(fn)
@@ -295,6 +295,17 @@ static void run_case(Case &c)
             Bytes m; switch(r.below(6)) { case 0: m.assign(gm, gm + sizeof(gm)); break; case 1: m.assign(gs, gs + sizeof(gs)); break; case 2: m.assign(xg, xg + sizeof(xg)); break; case 3: m.assign(mv, mv + sizeof(mv)); break; case 4: m.assign(dp, dp + sizeof(dp)); break; default: { int n = r.range(0, 20); for(int j = 0; j < n; j++) m.push_back(r.byte()); } }
             if(r.chance(0.4) && !m.empty()) { int k = r.below(3); size_t p = r.below((uint32_t)m.size()); if(k == 0) m[p] = r.byte(); else if(k == 1) m.resize(p); else m.insert(m.begin() + (long)p, r.byte()); }
             ExactBuf eb(m); int rc = 0; API("opn2_rt_systemExclusive", rc = opn2_rt_systemExclusive(d, eb.p, eb.n)); if(!d) RET(rc == -1, "opn2_rt_systemExclusive", rc); else RET(rc == 0 || rc == 1, "opn2_rt_systemExclusive", rc); break;
+        }
+        case 78: case 79:
+        {   // polyphony burst: a chord of 4..14 keys (optionally a program change first, optionally a short render after it):
+            // channel stealing, arpeggio sharing and evacuation need more notes than chip channels within a few milliseconds
+            if(!d) break;
+            uint8_t ch = (uint8_t)r.pick((const int[]){0, 1, 2, 9});
+            if(r.chance(0.5)) API("opn2_rt_patchChange", opn2_rt_patchChange(d, ch, (uint8_t)r.pick((const int[]){0, 12, 30, 81, 1})));
+            int nk = r.range(4, 14), base = r.range(36, 72);
+            for(int j = 0; j < nk; j++) { int rc = 0; API("opn2_rt_noteOn", rc = opn2_rt_noteOn(d, ch, (uint8_t)(base + j), (uint8_t)r.range(1, 127))); (void)rc; }
+            if(r.chance(0.5)) { short pcm[2 * 1600]; int n = r.pick((const int[]){64, 512, 1024, 1600}); int got = 0; API("opn2_generate", got = opn2_generate(d, n * 2, pcm)); (void)got; }
+            break;
         }
         default:
         {
